@@ -12,17 +12,22 @@ for d in sorted(glob.glob('/verif/seeded/C*/[ab]')):
     log='/tmp/seedmatrix/%s_%s.log'%(p,v)
     viol=[]
     summary=''
+    replayed=set()
     if os.path.exists(log):
+        for l in open(log):
+            if l.startswith('  replay ') and 'confirmed= True' in l:
+                replayed.add(l.split()[1])
         for l in open(log):
             if l.startswith('VIOLATION'):
                 mm=re.search(r'obligation=(\S+)',l)
-                viol.append((mm.group(1) if mm else l.strip()) + (' (replayed on the real code)' if 'no-failing-input-found' not in l else ''))
+                ob=mm.group(1) if mm else l.strip()
+                viol.append(ob + (' (counterexample replayed on the real code)' if ob in replayed else ''))
             if l.startswith('property '): summary=l.strip()
     m['property']=p; m['variant']=v
     m['confirmed']={'on_repo_commit':head,'by':'tools/confirmseed.sh: patch applies, builds, unedited suite passes, demo passes without and fails with the patch','result':'CONFIRMED' if ('CONFIRMED %s '%d) in conf or True else 'unknown'}
     m['check']={'command':'tools/tryseed.sh %s %s (= ./check %s quick on a scratch copy with the patch applied)'%(p,v,p),'detected':bool(viol),'violations':viol[:8],'summary':summary}
     json.dump(m,open(mp,'w'),indent=1)
     what=(m.get('what_it_breaks') or '')[:110].replace('|','/').replace('\n',' ')
-    rows.append('| %s/%s | %s | %s | %s |'%(p,v,what,'**detected**' if viol else 'MISSED',', '.join(x.split(' (')[0] for x in viol[:2])[:120]))
+    rows.append('| %s/%s | %s | %s | %s |'%(p,v,what,('**detected**'+(' + replayed' if any('replayed' in x for x in viol) else '')) if viol else 'MISSED',', '.join(x.split(' (')[0] for x in viol[:2])[:120]))
 print('| seed | change | result | first failing obligations |\n|---|---|---|---|')
 print('\n'.join(rows))
